@@ -1207,3 +1207,130 @@ func drawGateway(t *rapid.T) GWCase {
 }
 
 func TestGateway(t *testing.T) { stats.Prop(t, drawGateway, checkGateway) }
+
+const keyBlockLimit = "C19/gateway-max-weight-block-exceeds-5e6"
+
+// deepInputBlock builds a block holding one v2 transaction with n siacoin inputs whose
+// parents are evenly spread leaves of one accumulator tree of the given height, with
+// Merkle proofs that are valid for that tree (so the multiproof encoding applies).
+func deepInputBlock(n, height int) types.Block {
+	txn := types.V2Transaction{MinerFee: types.NewCurrency64(1)}
+	nodes := map[uint64]types.Hash256{}
+	for i := 0; i < n; i++ {
+		var in types.V2SiacoinInput
+		in.Parent.ID = types.SiacoinOutputID(types.HashBytes([]byte(fmt.Sprint("deep", i))))
+		in.Parent.SiacoinOutput.Value = types.NewCurrency64(uint64(i))
+		in.Parent.StateElement.LeafIndex = uint64(i) * ((1 << uint(height)) / uint64(n))
+		in.Parent.StateElement.MerkleProof = make([]types.Hash256, height)
+		in.SatisfiedPolicy = types.SatisfiedPolicy{Policy: types.PolicyPublicKey(types.PublicKey{1}), Signatures: []types.Signature{{1}}}
+		txn.SiacoinInputs = append(txn.SiacoinInputs, in)
+	}
+	for i := range txn.SiacoinInputs {
+		e := &txn.SiacoinInputs[i].Parent
+		nodes[e.StateElement.LeafIndex] = siacoinLeafHash(e)
+	}
+	filler := func(level int, idx uint64) types.Hash256 {
+		return types.HashBytes([]byte(fmt.Sprint("filler", level, ".", idx)))
+	}
+	for lvl := 0; lvl < height; lvl++ {
+		get := func(idx uint64) types.Hash256 {
+			if h, ok := nodes[idx]; ok {
+				return h
+			}
+			return filler(lvl, idx)
+		}
+		for i := range txn.SiacoinInputs {
+			e := &txn.SiacoinInputs[i].Parent
+			e.StateElement.MerkleProof[lvl] = get((e.StateElement.LeafIndex >> uint(lvl)) ^ 1)
+		}
+		next := map[uint64]types.Hash256{}
+		for idx := range nodes {
+			if p := idx >> 1; next[p] == (types.Hash256{}) {
+				next[p] = blake2b.SumPair(get(p<<1), get(p<<1|1))
+			}
+		}
+		nodes = next
+	}
+	return types.Block{ParentID: types.BlockID{1}, Timestamp: time.Unix(1700000000, 0), MinerPayouts: []types.SiacoinOutput{{Value: types.NewCurrency64(1)}},
+		V2: &types.V2BlockData{Height: 1000000, Transactions: []types.V2Transaction{txn}}}
+}
+
+// TestKnownBlockLimit: block weight does not count Merkle proofs, the wire encoding does.
+// A block of weight 1 962 000 (limit 2 000 000) that spends 9 000 outputs spread over an
+// accumulator tree of height 27 encodes to ~5.9 MB even with the multiproof compression,
+// which is more than the 5e6 bytes the gateway allows for RPCSendV2Blocks with Max = 1
+// (and for RPCRelayV2BlockOutline and RPCSendCheckpoint).
+func TestKnownBlockLimit(t *testing.T) {
+	stats.ProbeKnown(t, keyBlockLimit, "a block within the weight limit (9000 inputs, accumulator height 27) encodes to more than the 5e6 bytes the gateway RPCs allow per block", func() error {
+		b := deepInputBlock(9000, 27)
+		var cs consensus.State
+		if w := cs.V2TransactionWeight(b.V2.Transactions[0]); w > cs.MaxBlockWeight() {
+			return fmt.Errorf("probe block is over the weight limit: %d", w)
+		}
+		pa, pb := net.Pipe()
+		defer pa.Close()
+		defer pb.Close()
+		genesis := types.BlockID{7}
+		var ta, tb *gateway.Transport
+		ea, eb := runPair(
+			func() (err error) {
+				ta, err = gateway.Dial(addrConn{pa, "10.0.0.2:9981"}, gateway.Header{GenesisID: genesis, UniqueID: gateway.UniqueID{1}, NetAddress: "10.0.0.1:9981"})
+				return
+			},
+			func() (err error) {
+				tb, err = gateway.Accept(addrConn{pb, "10.0.0.1:9981"}, gateway.Header{GenesisID: genesis, UniqueID: gateway.UniqueID{2}, NetAddress: "10.0.0.2:9981"})
+				return
+			})
+		if ea != nil || eb != nil {
+			return fmt.Errorf("probe handshake failed: %v / %v", ea, eb)
+		}
+		defer ta.Close()
+		defer tb.Close()
+		req := &gateway.RPCSendV2Blocks{History: []types.BlockID{{1}}, Max: 1}
+		var readErr error
+		ea, eb = runPair(
+			func() error {
+				st, err := ta.DialStream()
+				if err != nil {
+					return err
+				}
+				defer st.Close()
+				if err := st.WriteID(req); err != nil {
+					return err
+				} else if err := st.WriteRequest(req); err != nil {
+					return err
+				}
+				readErr = st.ReadResponse(req)
+				ta.Close() // releases the responder if it is still writing
+				return nil
+			},
+			func() error {
+				st, err := tb.AcceptStream()
+				if err != nil {
+					return err
+				}
+				defer st.Close()
+				if _, err := st.ReadID(); err != nil {
+					return err
+				}
+				var got gateway.RPCSendV2Blocks
+				if err := st.ReadRequest(&got); err != nil {
+					return err
+				}
+				got.Blocks = []types.Block{b}
+				st.WriteResponse(&got) // may fail once the reader has given up
+				return nil
+			})
+		if ea != nil || eb != nil {
+			return fmt.Errorf("probe RPC could not run: %v / %v", ea, eb)
+		}
+		if readErr != nil {
+			return fmt.Errorf("SendV2Blocks(Max=1) response carrying one block of weight %d (%d bytes encoded): ReadResponse: %v",
+				cs.V2TransactionWeight(b.V2.Transactions[0]), encLen(types.V2Block(b)), readErr)
+		}
+		if ok, p := normEqual([]types.Block{b}, req.Blocks); !ok {
+			return fmt.Errorf("block differs at %s", p)
+		}
+		return nil
+	})
+}
